@@ -264,6 +264,22 @@ pub fn run(ctx: &Ctx, rep: &mut Report) {
                     p.set_observe_value(list.last().copied().unwrap_or(8));
                     let obs_raw: Vec<Vec<u8>> = p.get_option(CoapOption::Observe).map(|l| l.iter().cloned().collect()).unwrap_or_default();
                     let obs = p.get_observe_value().map(|x| x.ok());
+                    // whatever was there before - including a padded encoding of the very same number,
+                    // or several values the first of which already equals it - the setter stores exactly one minimal value
+                    let v0 = list.first().copied().unwrap_or(5);
+                    let mut q = Packet::new();
+                    let mut padded = vec![0u8];
+                    padded.extend(uint::enc(v0 as u128));
+                    q.add_option(CoapOption::Observe, padded);
+                    q.add_option(CoapOption::Observe, uint::enc(list.last().copied().unwrap_or(9) as u128));
+                    q.set_observe_value(v0);
+                    let obs_raw2: Vec<Vec<u8>> = q.get_option(CoapOption::Observe).map(|l| l.iter().cloned().collect()).unwrap_or_default();
+                    let mut q = Packet::new();
+                    q.add_option(CoapOption::Observe, uint::enc(v0 as u128));
+                    q.add_option(CoapOption::Observe, vec![7]);
+                    q.set_observe_value(v0);
+                    let obs_raw3: Vec<Vec<u8>> = q.get_option(CoapOption::Observe).map(|l| l.iter().cloned().collect()).unwrap_or_default();
+                    let obs_raw = if obs_raw2 != vec![uint::enc(v0 as u128)] { obs_raw2 } else if obs_raw3 != vec![uint::enc(v0 as u128)] { obs_raw3 } else { obs_raw };
                     (typed, first, raw, reparsed, obs_raw, obs)
                 });
                 match r {
